@@ -185,7 +185,7 @@ class Interp:
 
     def inline_call(self, cal, args, node, st):
         """Evaluate a workspace function interprocedurally (fresh environment, shared heap / events / path condition)."""
-        rec = self.facts.hir.get(cal)
+        rec = self.facts.hir.get(cal) or getattr(self.facts, 'hir_all', {}).get(cal)
         if rec is None or getattr(self, '_depth', 0) > 6:
             return None
         B = hirq.Body(self.facts, rec)
@@ -626,7 +626,41 @@ class Interp:
                 res.append(Out('val', o.val, o.st))
             else:
                 res.append(o)
+        # scope end: a local of a workspace type with a Drop impl (a guard) is dropped on every way out of the block - normal
+        # completion, `?`, return, break - in reverse order of declaration; the impl's body is evaluated on the value the local holds.
+        # The events it produces are bracketed by ('drop', 'begin' / 'end', type) so that a rule can tell what happens in a
+        # destructor (which also runs when a pending future is dropped) from what the function does explicitly.
+        guards = [(s_['pat']['bind'], self.drop_impl(s_['pat'].get('ty'))) for s_ in e['stmts']
+                  if s_['k'] == 'Let' and s_['pat'].get('k') == 'Bind' and self.drop_impl(s_['pat'].get('ty'))]
+        if guards:
+            res2 = []
+            for o in res:
+                cur = [o]
+                for b, impl in reversed(guards):
+                    nxt = []
+                    for oo in cur:
+                        if b not in oo.st.env:
+                            nxt.append(oo); continue
+                        st0 = oo.st.event(('drop', 'begin', impl))
+                        done = self.inline_call(impl, [st0.env[b]], e, st0) or []
+                        ends = [Out(oo.kind, oo.val, d.st.event(('drop', 'end', impl)), oo.target) for d in done if d.kind == 'val']
+                        nxt.extend(ends or [oo])
+                    cur = nxt
+                res2.extend(cur)
+            res = res2
         return res
+
+    def drop_impl(self, ty):
+        """def path of `<T as Drop>::drop` for a workspace type T (by its path, generic arguments aside), or None"""
+        tab = getattr(self.facts, '_drop_impls', None)
+        if tab is None:
+            tab = {}
+            for p in getattr(self.facts, 'hir_all', self.facts.hir):
+                m_ = re.match(r'<(.+) as core::ops::drop::Drop>::drop$', p)
+                if m_:
+                    tab[re.sub(r'<.*', '', m_.group(1))] = p
+            self.facts._drop_impls = tab
+        return tab.get(re.sub(r'<.*', '', (ty or '').lstrip('&').replace('mut ', '')))
 
     def decide(self, v, st):
         """Split on the truth of term v: returns [(bool, state)]."""
